@@ -821,6 +821,8 @@ def getitem(v, k, ctx):
             st = const_int(k.step) if k.step is not None else None
             if k.step is not None and st is None:
                 raise Unsupported('symbolic slice step')
+            if st == 0:
+                return _raise(ctx, 'ValueError')
             if (k.start is None or a is not None) and (k.stop is None or b is not None):
                 return v[a:b:st]
             return getitem(mk(term(v), pytype(v)), k, ctx)
@@ -839,6 +841,8 @@ def getitem(v, k, ctx):
                 if x is not None and c is None:
                     raise Unsupported('symbolic slice of a tuple')
                 parts.append(c)
+            if parts[2] == 0:
+                return _raise(ctx, 'ValueError')
             return v[parts[0]:parts[1]:parts[2]]
         c = const_int(k)
         if c is None:
